@@ -2028,6 +2028,7 @@ static void xstream_add_xstream_list(ABTI_global *p_global,
     if (!p_xstream) {
         /* p_newxstream is appended to p_prev_xstream */
         if (p_prev_xstream) {
+            ABTI_VERIF_COV(ABTI_VERIF_C_RANK_INSERT_TAIL);
             p_prev_xstream->p_next = p_newxstream;
             p_newxstream->p_prev = p_prev_xstream;
             p_newxstream->p_next = NULL;
@@ -2041,10 +2042,12 @@ static void xstream_add_xstream_list(ABTI_global *p_global,
         /* p_newxstream is inserted in the middle.
          * (p_xstream->p_prev) -> p_new_xstream -> p_xstream */
         if (p_xstream->p_prev) {
+            ABTI_VERIF_COV(ABTI_VERIF_C_RANK_INSERT_MIDDLE);
             p_xstream->p_prev->p_next = p_newxstream;
             p_newxstream->p_prev = p_xstream->p_prev;
         } else {
             /* This p_xstream is the first element */
+            ABTI_VERIF_COV(ABTI_VERIF_C_RANK_INSERT_HEAD);
             ABTI_ASSERT(p_global->p_xstream_head == p_xstream);
             p_global->p_xstream_head = p_newxstream;
         }
@@ -2083,6 +2086,7 @@ static ABT_bool xstream_set_new_rank(ABTI_global *p_global,
                 rank++;
             } else {
                 /* Use this rank. */
+                ABTI_VERIF_COV(ABTI_VERIF_C_RANK_GAP_REUSED);
                 break;
             }
             p_xstream = p_xstream->p_next;
